@@ -112,7 +112,9 @@ def msd_from_m_and_g(ctx, case):
     quad = sp.expand((qv.T * K * qv)[0, 0])
     tr1 = sp.expand(sum(Rq[3 * r + cc] * S[r, cc] for r in range(3) for cc in range(3)))
     tr2 = sp.expand(sum(Rq[3 * r + cc] * S[cc, r] for r in range(3) for cc in range(3)))
-    ctx.ensure("Horn-identity:q^T.K.q=sum_ij R(q)_ij*M_ij(one-of-the-two-index-conventions)", sp.expand(quad - tr1) == 0 or sp.expand(quad - tr2) == 0, kind="lemma-poly")
+    # the convention that makes the three kernels fit together: msd_atom_major builds M[3i+j] = sum a_i b_j, rot_atom_major applies
+    # x'_j = sum_i x_i rot[3i+j] to structure a, so the overlap after rotation is sum_ij rot[3i+j] M[3i+j]
+    ctx.ensure("Horn-identity:q^T.K.q=sum_ij-R(q)[3i+j]*M[3i+j](overlap-of-a.R(q)-with-b)", sp.expand(quad - tr2) == 0, kind="lemma-poly")
     RR = sp.Matrix(3, 3, lambda r, cc: Rq[3 * r + cc])
     n2 = sum(v * v for v in q)
     ctx.ensure("R(q)^T.R(q)=|q|^4*I", (RR.T * RR - n2 ** 2 * sp.eye(3)).expand() == sp.zeros(3, 3), kind="lemma-poly")
@@ -267,3 +269,33 @@ def center_and_trace(ctx, case):
 
 
 contract("C06", "mdtraj/rmsd/src/center_sse.h", "inplace_center_and_trace_atom_major", cases=[1, 2, 3, 4, 5, 6, 7, 8, 9], lang="c", replay="rmsd", covers=["returned"], max_paths=50)(center_and_trace)
+
+
+def rot_atom_major(ctx, case):
+    """rot_atom_major (rotation_sse.h): every atom x of the conformation becomes x' with x'_j = sum_i x_i rot[3i+j] (n concrete per case:
+    every remainder modulo 4; coordinates and matrix symbolic); nothing else is written, the matrix is not modified"""
+    import sympy as sp
+
+    n = case
+    c = ctx.load_c("mdtraj/rmsd/src/rotation.cpp", ["rot_atom_major", "aos_deinterleaved_loadu", "aos_interleaved_storeu", "_mm_add3_ps"], **INC)
+    A, Rm = Region("a"), Region("rot")
+    A.mem0, Rm.mem0 = A.mem, Rm.mem
+    out = ctx.ccall("rot_atom_major", n, Ptr(A, 0), Ptr(Rm, 0))
+    ctx.ensure("returns-normally", out.exc is None)
+    if out.exc is not None:
+        return
+    ctx.cover("returned")
+    env = {}
+    ok = True
+    for atom in range(n):
+        for j in range(3):
+            got = polyid.to_sympy(z3.simplify(z3.Select(A.mem, 3 * atom + j)), env)
+            want = sum(polyid.to_sympy(z3.Select(A.mem0, 3 * atom + i), env) * polyid.to_sympy(z3.Select(Rm.mem0, 3 * i + j), env) for i in range(3))
+            if sp.expand(got - want) != 0:
+                ok = False
+    ctx.ensure("x'[j]=sum_i-x[i]*rot[3i+j]-for-every-atom", ok, kind="lemma-poly")
+    ctx.ensure("rotation-matrix-not-written", not Rm.writes)
+    ctx.ensure("writes-stay-inside-the-conformation", all(z3.is_int_value(z3.simplify(w[0])) and 0 <= z3.simplify(w[0]).as_long() < 3 * n for w in A.writes))
+
+
+contract("C06", "mdtraj/rmsd/src/rotation_sse.h", "rot_atom_major", cases=[1, 2, 3, 4, 5, 6, 7, 9], lang="c", replay="rmsd", covers=["returned"], max_paths=50)(rot_atom_major)
